@@ -436,6 +436,25 @@ func (c *Case) Preprocess() (parser.Expr, error) {
 // as step-invariant: its window slides with the step, over whatever the storage happens to return
 // outside the range that was selected (one querier for the whole query in the reference engine,
 // one per selector in this one). What comes out is not determined by the query and the data.
+// includesName: a group_left / group_right whose include list names `__name__`: the engine appends
+// the one side's name label to the output (known finding on include labels), which then carries
+// two name labels; what later operators do to such a label set (the engine drops the first name
+// label only) is not followed by the model.
+func includesName(e parser.Expr) bool {
+	found := false
+	parser.Inspect(e, func(n parser.Node, _ []parser.Node) error {
+		if b, ok := n.(*parser.BinaryExpr); ok && b.VectorMatching != nil {
+			for _, l := range b.VectorMatching.Include {
+				if l == "__name__" {
+					found = true
+				}
+			}
+		}
+		return nil
+	})
+	return found
+}
+
 // tsPinnedOffsetMulti: `timestamp()` over a selector that is pinned (`@`) and shifted (`offset`), in
 // a query with further selectors. The reference engine's special case for timestamp() re-reads
 // the series at `@` from whatever its one query-wide querier returned, i.e. from the union of all
